@@ -40,6 +40,10 @@ class Ctx:
     rule_errors: list[str] = field(default_factory=list)
     _keys: set[str] = field(default_factory=set)
 
+    def keys_of(self, rule: str) -> list[str]:
+        """Keys of the obligations recorded so far under a rule."""
+        return [k for k in self._keys if k.startswith(rule + '/')]
+
     def ob(self, rule: str, key: str, ok: bool, site: str, expect: Any, got: Any, note: str = '',
            witness: str = '') -> bool:
         full = f'{rule}/{key}'
